@@ -609,7 +609,7 @@ def emit_locks():
 # ---------------------------------------------------------------- constants
 def emit_consts():
     cfg = open(os.path.join(REPO, 'library/src/config.rs')).read()
-    m = re.search(r'const DEFAULT_CHANNEL: &str = "([^"]*)";', cfg)
+    m = re.search(r'(?:pub(?:\([^)]*\))?\s+)?const DEFAULT_CHANNEL: &str = "([^"]*)";', cfg)
     if not m:
         raise Bad('DEFAULT_CHANNEL not found')
     chan = m.group(1)
